@@ -749,3 +749,124 @@ Definition state_tuple (s : tstate) :=
   (children s, (info s, (preproc s, (sliced s, (sliced_inputs s, (mult s,
    ((trk_flops s, (trk_write s, trk_size s)), (flops_ s, (write_ s, (sizes_ s, (sizes_max s, (cores s, err s)))))))))))).
 #[export] Instance Eqb_tstate : Eqb tstate := fun a b => eqb (state_tuple a) (state_tuple b).
+
+(* ------------------------------------------------------------------------ *)
+(* verified checkers (soundness: Proofs/TreeStateFacts.v), run on every observed state      *)
+Fixpoint tree_of (f : nat) (ch : list (node * (node * node))) (nd : node) : option tree :=
+  match f with
+  | O => None
+  | S f' =>
+      if Nat.eqb (length nd) 1 then Some (Leaf (hd 0 nd))
+      else match nget nd ch with
+           | None => None
+           | Some (l, r) =>
+               match tree_of f' ch l, tree_of f' ch r with
+               | Some a, Some b => Some (Node a b)
+               | _, _ => None
+               end
+           end
+  end.
+Definition opt_nat_eqb (a b : option nat) : bool :=
+  match a, b with Some x, Some y => Nat.eqb x y | None, None => true | _, _ => false end.
+(* same key -> count map *)
+Definition legs_equivb (a b : legs) : bool :=
+  forallb (fun j => opt_nat_eqb (lget j a) (lget j b)) (lkeys a ++ lkeys b).
+Definition optb {A} (o : option A) (f : A -> bool) : bool := match o with Some x => f x | None => true end.
+
+Section Checkers.
+Variable n : net.
+Definition tfuel (s : tstate) : nat := length (children s) + 2.
+Definition node_cost_ok_b (s : tstate) (ni : node * ninfo) : bool :=
+  match tree_of (tfuel s) (children s) (fst ni) with
+  | None => true
+  | Some t =>
+      let isroot := Nat.eqb (length (fst ni)) (NN n) in
+      optb (i_legs (snd ni)) (fun l => legs_equivb l (node_legs n (sliced s) isroot t))
+      && optb (i_involved (snd ni)) (fun l => legs_equivb l (involved n (sliced s) t))
+      && optb (i_size (snd ni)) (fun z => Z.eqb z (node_size n (sliced s) isroot t))
+      && optb (i_flops (snd ni)) (fun z => Z.eqb z (node_flops n (sliced s) t))
+  end.
+(* the trees under all internal nodes, when every one is complete *)
+Fixpoint all_some {A} (l : list (option A)) : option (list A) :=
+  match l with
+  | [] => Some []
+  | None :: _ => None
+  | Some x :: l' => match all_some l' with Some r => Some (x :: r) | None => None end
+  end.
+Definition child_trees (s : tstate) : option (list (bool * tree)) :=
+  all_some (map (fun c => match tree_of (tfuel s) (children s) (fst c) with
+                          | Some t => Some (Nat.eqb (length (fst c)) (NN n), t)
+                          | None => None end) (children s)).
+Definition totals_ok_b (s : tstate) : bool :=
+  match child_trees s with
+  | None => true
+  | Some ts =>
+      (if trk_flops s then Z.eqb (flops_ s) (zsum (map (fun bt => node_flops n (sliced s) (snd bt)) ts)) else true)
+      && (if trk_write s then Z.eqb (write_ s) (zsum (map (fun bt => node_size n (sliced s) (fst bt) (snd bt)) ts)) else true)
+      && Z.eqb (mult s) (multiplicity n (sliced s))
+  end.
+Definition cost_inv_b (s : tstate) : bool :=
+  forallb (node_cost_ok_b s) (info s) && totals_ok_b s.
+End Checkers.
+
+(* ------------------------------------------------------------------------ *)
+(* C02: the recipe invariant as a decidable predicate on states                             *)
+Definition is_none {A} (o : option A) : bool := match o with None => true | Some _ => false end.
+Fixpoint remove1 (x : nat) (l : list nat) : option (list nat) :=
+  match l with
+  | [] => None
+  | y :: l' => if Nat.eqb x y then Some l'
+               else match remove1 x l' with Some r => Some (y :: r) | None => None end
+  end.
+Fixpoint permb (a b : list nat) : bool :=
+  match a with
+  | [] => match b with [] => true | _ => false end
+  | x :: a' => match remove1 x b with Some b' => permb a' b' | None => false end
+  end.
+Section Recipes.
+Variable n : net.
+Definition node_recipe_ok_b (s : tstate) (ni : node * ninfo) : bool :=
+  let nd := fst ni in let i := snd ni in
+  (* (iii.a) a present index order is a permutation of the present legs ... *)
+  match i_inds i, i_legs i with Some ind, Some lg => permb ind (lkeys lg) | _, _ => true end
+  (* ... and at the root it is the declared output order minus the removed indices *)
+  && (if Nat.eqb (length nd) (NN n)
+      then optb (i_inds i) (fun ind => list_eqb Nat.eqb ind
+                  (filter (fun j => negb (memb j (removed (sliced s)))) (output n)))
+      else true)
+  (* (iii.b) every present derived recipe equals the recipe derived from the index orders
+     currently cached on the node and on its two children (and those must then be present) *)
+  && match nget nd (children s) with
+     | None => is_none (i_eq i) && is_none (i_can_dot i) && is_none (i_tdaxes i) && is_none (i_tdperm i)
+     | Some (l, r) =>
+         match rd i_inds s l, rd i_inds s r with
+         | Some li, Some ri =>
+             optb (i_tdaxes i) (fun a => eqb a (td_axes li ri 0))
+             && match i_inds i with
+                | Some pi => optb (i_eq i) (fun e => eqb e (einsum_eq_of li ri pi))
+                             && optb (i_tdperm i) (fun p => eqb p (td_perm li ri pi))
+                | None => is_none (i_eq i) && is_none (i_tdperm i)
+                end
+         | _, _ => is_none (i_eq i) && is_none (i_tdaxes i) && is_none (i_tdperm i)
+         end
+         && match i_can_dot i with
+            | None => true
+            | Some b =>
+                match i_legs i, rd i_legs s l, rd i_legs s r with
+                | Some sp, Some sl, Some sr => Bool.eqb b (set_eqb (lkeys sp) (symdiff (lkeys sl) (lkeys sr)))
+                | _, _, _ => false
+                end
+            end
+     end.
+(* (iv) every recorded preprocessing step is the from-scratch simplification of its leaf, and a
+   leaf whose legs are cached and which is simplifiable has its step recorded *)
+Definition preproc_ok_b (s : tstate) : bool :=
+  forallb (fun e => match leaf_preproc n (sliced s) (fst e) with
+                    | Some tk => eqb (canon_eq1 tk) (snd e)
+                    | None => false end) (preproc s)
+  && forallb (fun i => match rd i_legs s [i], leaf_preproc n (sliced s) i with
+                       | Some _, Some _ => match pget i (preproc s) with Some _ => true | None => false end
+                       | _, _ => true end) (seq 0 (NN n)).
+Definition recipe_inv_b (s : tstate) : bool :=
+  forallb (node_recipe_ok_b s) (info s) && preproc_ok_b s.
+End Recipes.
